@@ -304,6 +304,17 @@ func (s *Syncer) walkFetch(ctx context.Context, rootCid cid.Cid, sel selector.Se
 }
 
 func (s *Syncer) fetch(ctx context.Context, rsrc string, cb func(io.Reader) error) error {
+	// While probing the legacy no-path location, probePath holds the path to
+	// restore if the probe does not find the resource there either. Otherwise
+	// one missing block would strand the client on the legacy path.
+	var probing bool
+	var probePath string
+	defer func() {
+		if probing {
+			s.rootURL.Path = probePath
+			s.noPath = false
+		}
+	}()
 nextURL:
 	fetchURL := s.rootURL.JoinPath(rsrc)
 	var doneRetry bool
@@ -325,6 +336,9 @@ retry:
 			log.Errorw("Fetch request failed, will retry with next address", "err", err)
 			s.rootURL = *s.urls[0]
 			s.urls = s.urls[1:]
+			if probing {
+				probePath = s.rootURL.Path
+			}
 			if s.noPath {
 				s.rootURL.Path = strings.TrimSuffix(s.rootURL.Path, strings.Trim(IPNIPath, "/"))
 			}
@@ -342,12 +356,14 @@ retry:
 
 	switch resp.StatusCode {
 	case http.StatusOK:
+		probing = false
 		return cb(resp.Body)
 	case http.StatusNotFound:
 		_, _ = io.Copy(io.Discard, resp.Body)
 		if s.plainHTTP && !s.noPath {
 			// Try again with no path for legacy http.
 			log.Warnw("Plain HTTP got not found response, retrying without IPNI path for legacy HTTP")
+			probing, probePath = true, s.rootURL.Path
 			s.rootURL.Path = strings.TrimSuffix(s.rootURL.Path, strings.Trim(IPNIPath, "/"))
 			s.noPath = true
 			goto nextURL
@@ -362,6 +378,7 @@ retry:
 		if s.plainHTTP && !s.noPath {
 			// Try again with no path for legacy http.
 			log.Warnw("Plain HTTP got forbidden response, retrying without IPNI path for legacy HTTP")
+			probing, probePath = true, s.rootURL.Path
 			s.rootURL.Path = strings.TrimSuffix(s.rootURL.Path, strings.Trim(IPNIPath, "/"))
 			s.noPath = true
 			goto nextURL
